@@ -380,6 +380,8 @@ def _patch_header(prefix, block, fname, annline):
             kind = t[1]
             break
         k -= 1
+    if kind is None and toks[code[-1]][1] == '|':
+        return 'closure', prefix   # closure contract: clauses go between the parameter list and the body
     if kind is None:
         raise Undecided('%s: clause block at annot line %d: no fn/for/while/loop header found' % (fname, annline))
     directives = {}
